@@ -16,11 +16,11 @@ pub fn configs(tier: Tier) -> Vec<(&'static str, &'static str)> {
         ("te-display-only", "te_display"),
         ("tm-default", "tm_parse tm_display"),
         ("tm-preserve", "tm_parse tm_display tm_preserve"),
+        ("te-unbounded", "te_parse te_display te_unbounded"),
+        ("te-serde", "te_parse te_display te_serde"),
     ];
     let more = vec![
-        ("te-serde", "te_parse te_display te_serde"),
         ("te-perf-serde", "te_parse te_display te_perf te_serde"),
-        ("te-unbounded", "te_parse te_display te_unbounded"),
         ("te-parse-perf", "te_parse te_perf"),
         ("te-display-perf", "te_display te_perf"),
         ("te-parse-serde", "te_parse te_serde"),
@@ -68,10 +68,12 @@ pub struct Run {
 
 pub fn run(name: &'static str, exe: &str) -> Result<Run, String> {
     let out = Command::new(exe).output().map_err(|e| format!("cannot run {}: {}", exe, e))?;
-    if !out.status.success() {
-        return Err(format!("{} exited with {:?}: {}", name, out.status, String::from_utf8_lossy(&out.stderr).lines().last().unwrap_or("")));
-    }
     let mut r = Run { name, exe: exe.to_string(), blocks: BTreeMap::new(), counts: BTreeMap::new(), viols: Vec::new() };
+    if !out.status.success() {
+        // the battery is the same deterministic program in every configuration and guards every library call: if it
+        // dies in one of them (abort, stack overflow), that is this configuration's result
+        r.viols.push(format!("the battery process died in this configuration ({:?}): {}", out.status, String::from_utf8_lossy(&out.stderr).lines().last().unwrap_or("")));
+    }
     for line in String::from_utf8_lossy(&out.stdout).lines() {
         if let Some(rest) = line.strip_prefix("BLOCK ") {
             let mut it = rest.rsplitn(3, ' ');
@@ -101,7 +103,7 @@ pub fn c18(tier: Tier) -> i32 {
         "exploration",
         "the feature matrix is enumerated completely (toml_edit: default / perf / serde / unbounded x parse+display / parse-only / display-only; toml: default / preserve_order x parse+display / parse-only / display-only, plus perf and unbounded underneath); every configuration must build; one deterministic battery (all documents of <= 4 tokens, all statement sequences of <= 3, range-edge literals, decor samples, API-built documents, toml::Value trees in every insertion order, every toml::Map call history of <= 4 calls over 4 keys) is run in each; digests of verdicts, decoded trees, printed text and sorted observations are compared between all configurations that can compute them; non-trivial = battery items compared in at least two configurations",
     );
-    rep.assumptions = vec!["documented exceptions: preserve_order changes iteration / print order of toml::Table (order-dependent kinds are compared only between configurations with the same ordering, content-sorted kinds between all); unbounded only matters beyond the recursion limit, which the battery does not reach".into()];
+    rep.assumptions = vec!["documented exceptions: preserve_order changes iteration / print order of toml::Table (order-dependent kinds are compared only between configurations with the same ordering, content-sorted kinds between all); unbounded only matters beyond the recursion limit: the deep-nesting kind is compared between configurations with the same boundedness, and the unbounded ones must accept every deep document".into()];
     let t0 = std::time::Instant::now();
     let mut runs: Vec<Run> = Vec::new();
     let mut acc = Acc::default();
